@@ -11,7 +11,7 @@ func init() { register("C01", checkC01) }
 func checkC01(c *Ctx) error {
 	base := map[string]string{
 		"Sigma": "<- MCSigma", "N": "= 3", "LeafD": "<- MCLeafD",
-		"Deviations": "<- MCDev", "Cfg": "<- MCCfg", "PoolSel": `= "core"`,
+		"Deviations": "<- MCDev", "Cfg": "<- MCCfg", "PoolSel": `= "core"`, "CfgSel": `= "absent"`,
 	}
 	with := func(kv ...string) map[string]string {
 		m := map[string]string{}
